@@ -103,7 +103,8 @@ static EbErrorType svt_dec_handle_ctor(EbDecHandle **   decHandleDblPtr,
     EbErrorType return_error = EB_ErrorNone;
 
     // Allocate Memory
-    EbDecHandle *dec_handle_ptr = (EbDecHandle *)malloc(sizeof(EbDecHandle));
+    // zero-initialised: svt_av1_dec_deinit() reads dec_config.threads even if the handle was never configured
+    EbDecHandle *dec_handle_ptr = (EbDecHandle *)calloc(1, sizeof(EbDecHandle));
     *decHandleDblPtr            = dec_handle_ptr;
     if (dec_handle_ptr == (EbDecHandle *)NULL)
         return EB_ErrorInsufficientResources;
@@ -649,8 +650,10 @@ EB_API EbErrorType svt_av1_dec_deinit(EbComponentType *svt_dec_component) {
         return EB_ErrorNone;
 
     // Loop through the ptr table and free all malloc'd pointers per channel
+    // The list ends at the (never filled) sentinel entry allocated by svt_dec_handle_ctor; it is empty when
+    // deinit is called on a handle that was never initialised.
     EbMemoryMapEntry *memory_entry = svt_dec_memory_map;
-    do {
+    while (memory_entry != dec_handle_ptr->memory_map_init_address && memory_entry) {
         switch (memory_entry->ptr_type) {
         case EB_N_PTR: free(memory_entry->ptr); break;
         case EB_A_PTR:
@@ -668,7 +671,7 @@ EB_API EbErrorType svt_av1_dec_deinit(EbComponentType *svt_dec_component) {
         EbMemoryMapEntry *tmp_memory_entry = memory_entry;
         memory_entry                       = tmp_memory_entry->prev_entry;
         free(tmp_memory_entry);
-    } while (memory_entry != dec_handle_ptr->memory_map_init_address && memory_entry);
+    }
     free(dec_handle_ptr->memory_map_init_address);
     return return_error;
 }
